@@ -37,20 +37,22 @@ vars == <<refs, q, k, mo, self, fam, done, res>>
 
 KsQuickConfigs ==
   {[fam |-> "pair",   alpha |-> {"a", "t"}, rlo |-> 4, rn |-> 4, nr |-> 2, qlo |-> 4, qn |-> 4,
-    kmo |-> {<<2, -1>>, <<2, 2>>, <<3, -1>>, <<3, 2>>}],
+    kmo |-> {<<2, -1>>, <<2, 2>>, <<3, -1>>}],
    [fam |-> "triple", alpha |-> {"a", "t"}, rlo |-> 3, rn |-> 3, nr |-> 3, qlo |-> 3, qn |-> 3,
     kmo |-> {<<2, -1>>, <<2, 2>>}],
    [fam |-> "iupac",  alpha |-> {"a", "c", "n"}, rlo |-> 3, rn |-> 3, nr |-> 1, qlo |-> 3, qn |-> 3,
-    kmo |-> {<<2, -1>>}]}
+    kmo |-> {<<2, -1>>, <<2, 0>>, <<2, 1>>}]}
 KsThoroughConfigs ==
-  {[fam |-> "pair",   alpha |-> {"a", "t"}, rlo |-> 4, rn |-> 5, nr |-> 2, qlo |-> 3, qn |-> 5,
+  {[fam |-> "pair",   alpha |-> {"a", "t"}, rlo |-> 4, rn |-> 4, nr |-> 2, qlo |-> 3, qn |-> 5,
     kmo |-> {<<2, -1>>, <<2, 1>>, <<2, 2>>, <<2, 3>>, <<3, -1>>, <<3, 2>>}],
+   [fam |-> "pair5",  alpha |-> {"a", "t"}, rlo |-> 5, rn |-> 5, nr |-> 2, qlo |-> 5, qn |-> 5,
+    kmo |-> {<<2, 3>>, <<3, -1>>, <<4, -1>>}],
    [fam |-> "triple", alpha |-> {"a", "t"}, rlo |-> 3, rn |-> 3, nr |-> 3, qlo |-> 2, qn |-> 4,
-    kmo |-> {<<2, -1>>, <<2, 0>>, <<2, 1>>, <<2, 2>>, <<2, 3>>, <<2, 4>>, <<3, -1>>, <<3, 2>>}],
-   [fam |-> "iupac",  alpha |-> {"a", "c", "g", "n"}, rlo |-> 3, rn |-> 4, nr |-> 1, qlo |-> 3, qn |-> 4,
-    kmo |-> {<<2, -1>>, <<3, -1>>}],
-   [fam |-> "acgt",   alpha |-> {"a", "c", "g", "t"}, rlo |-> 3, rn |-> 3, nr |-> 2, qlo |-> 3, qn |-> 3,
-    kmo |-> {<<2, -1>>, <<2, 2>>}]}
+    kmo |-> {<<2, -1>>, <<2, 0>>, <<2, 1>>, <<2, 2>>, <<2, 3>>, <<3, -1>>, <<3, 2>>}],
+   [fam |-> "iupac",  alpha |-> {"a", "c", "n"}, rlo |-> 3, rn |-> 4, nr |-> 1, qlo |-> 3, qn |-> 4,
+    kmo |-> {<<2, -1>>, <<2, 0>>, <<2, 1>>, <<3, -1>>}],
+   [fam |-> "acgt",   alpha |-> {"a", "c", "g", "t"}, rlo |-> 3, rn |-> 4, nr |-> 1, qlo |-> 3, qn |-> 3,
+    kmo |-> {<<2, -1>>, <<2, 2>>, <<3, -1>>}]}
 
 KsWords(S, lo, n) == UNION {[1..m -> S] : m \in lo..n}
 KsTuples(S, n) == UNION {[1..m -> S] : m \in 1..n}
